@@ -71,6 +71,8 @@ pub fn dump_case(id: &str, c: &compiler::pipeline::pipeline::Compilation, out: &
     writeln!(out, "{}\tSTAGE\tlift\t{}", id, prog(dump::lift_file(&c.lambda), &impls).to_text()).unwrap();
     writeln!(out, "{}\tSTAGE\tanf\t{}", id, prog(dump::anf_file(&c.anf), &impls).to_text()).unwrap();
     writeln!(out, "{}\tSTAGE\tgo\t{}", id, godump::gfile(&c.go).to_text()).unwrap();
+    // input of the composite middle-end model (C01 pipeline composition): the type definitions of `genv`
+    writeln!(out, "{}\tGENV\t{}", id, tagged("genv", vec![crate::c07::enums_s(c.genv.enums()), crate::c07::structs_s(c.genv.structs())]).to_text()).unwrap();
     // the printer tie: what the user runs is the printed text
     let text = c.go.to_pretty(&c.goenv, 120);
     let erased = crate::goparse::erase_file(&c.go);
@@ -217,7 +219,7 @@ pub fn main(args: &util::Args) {
         let _ = std::fs::remove_dir_all(&dir);
     }
     // minimised past failures kept under /verif/corpus
-    for sub in ["C01", "C02", "C03", "C06", "C07", "C08", "C09"] {
+    for sub in ["C01", "C01pipe", "C02", "C03", "C06", "C07", "C08", "C09"] {
         let Ok(rd) = std::fs::read_dir(util::verif_root().join("corpus").join(sub)) else { continue };
         let mut files: Vec<_> = rd.filter_map(|e| e.ok().map(|e| e.path())).filter(|p| p.extension().is_some_and(|x| x == "gom")).collect();
         files.sort();
@@ -251,10 +253,24 @@ pub fn main(args: &util::Args) {
     let total = args.n.unwrap_or(if args.tier == "thorough" { 3000 } else { 300 });
     let dir = util::scratch_dir("c01");
     let mut feats_total: std::collections::BTreeMap<&'static str, usize> = Default::default();
-    for i in 0..total {
+    // … followed by total/6 programs over the rich-generics library (generic functions, methods, types,
+    // inherent impls of single instantiations overlapping the generic impls)
+    for i in 0..total + total / 6 {
         let mut root = crate::rng::Rng::new(args.seed);
         let mut rng = root.fork(i as u64);
-        let cfg = crate::progen::Cfg {
+        let rich = i >= total;
+        let cfg = if rich {
+            crate::progen::Cfg {
+                traits: i % 3 != 0,
+                generics: true,
+                max_depth: 1 + i % 2,
+                effects: true,
+                rich_generics: true,
+                vec_generics: true,
+                overlapping_impls: true,
+                ..Default::default()
+            }
+        } else { crate::progen::Cfg {
             closure_flows: i % 10 == 9,
             traits: i % 3 != 0,
             generics: i % 2 == 0,
@@ -265,13 +281,15 @@ pub fn main(args: &util::Args) {
             src_forms: i % 4 != 1,
             lit_field_effects: i % 20 == 7,
             nested_patterns: i % 4 == 1,
+            logic_rhs_shapes: i % 5 == 2,
             ..Default::default()
-        };
+        } };
         let (src, feats) = crate::progen::gen_program(&mut rng, cfg);
         let id = format!(
-            "gen:{}:{}{}{}{}",
+            "gen:{}:{}{}{}{}{}",
             args.seed,
             i,
+            if rich { ":rg" } else { "" },
             if cfg.closure_flows { ":cf" } else { "" },
             if cfg.wildcard_arrays { ":wa" } else { "" },
             if cfg.lit_field_effects { ":lfe" } else { "" }
